@@ -539,9 +539,14 @@ def auto_writer_case(args) -> List[Fail]:
     os.environ["SOURCE_DATE_EPOCH"] = str(EPOCH)
     from clematis.engine import snapshot as S
     d = worker_dir(base)
-    payload = [{"version_etag": "e1", "gel": {"nodes": {}, "edges": {}}}, {"a": {"é→x": 0.5}}, {}, {"version_etag": "7", "store": {"weights": []}}][i % 4]
+    payload = [{"version_etag": "e1", "gel": {"nodes": {}, "edges": {}}}, {"a": {"é→x": 0.5}}, {}, {"version_etag": "7", "store": {"weights": []}},
+               # NEL / LS / PS inside ids: the header+payload format is line based
+               {"version_etag": "8", "gel": {"nodes": {"l\u2028s": {"id": "l\u2028s"}, "n\u0085l": {"id": "n\u0085l", "label": "p\u2029s"}}, "edges": {}}}][i % 5]
     fails: List[Fail] = []
-    p, wrote_delta = S.write_snapshot_auto(d, etag_from=None, etag_to=f"e{i}", payload=payload, compression="none", delta_mode=bool(i & 1))
+    try:
+        p, wrote_delta = S.write_snapshot_auto(d, etag_from=None, etag_to=f"e{i}", payload=payload, compression="none", delta_mode=bool(i & 1))
+    except Exception as e:      # noqa: BLE001
+        return [("RestoreGel", {"feature": "pr34-write"}, f"write_snapshot_auto raised {type(e).__name__}: {e} for {payload!r}")]
     raw = open(p, "rb").read()
     head = json.loads(raw.split(b"\n", 1)[0])
     if head.get("schema") != "snapshot:v1" or wrote_delta:
@@ -549,8 +554,12 @@ def auto_writer_case(args) -> List[Fail]:
     ms = [m for m in marker_fails(p, b'{"schema_version": "v1"}')]
     for m in ms:
         fails.append(("SchemaMarker", {"feature": "pr34-sidecar"}, m))
-    if S.read_snapshot(path=p) != payload:
-        fails.append(("RestoreGel", {"feature": "pr34-read"}, f"read_snapshot returned {S.read_snapshot(path=p)!r} for {payload!r}"))
+    try:
+        back = S.read_snapshot(path=p)
+    except Exception as e:      # noqa: BLE001 - the file was just written by the real writer: failing to read it back is the violation
+        back = f"<raised {type(e).__name__}: {e}>"
+    if back != payload:
+        fails.append(("RestoreGel", {"feature": "pr34-read"}, f"read_snapshot returned {back!r} for {payload!r}"))
     pk = S._pick_latest_snapshot_path(d)
     if not pk or os.path.abspath(pk) != os.path.abspath(p):
         fails.append(("DiscoveryNeverSidecarOrTemp", {"feature": "picked-sidecar"}, f"picked {pk!r} after write_snapshot_auto wrote {p!r}"))
@@ -578,6 +587,9 @@ B_T4POS = ("t4pos", 2500000, 10 ** 7, 0)            # 0.0 lies outside the bound
 B_OFF = ("graphoff", -1234567, 1234567, 0)           # bounds that are not six-decimal values
 B_EPS = ("t4eps", -10 ** 7, 10 ** 7, 10000)          # graph.decay.epsilon_prune = 0.001
 B_POSEPS = ("t4poseps", 2500000, 10 ** 7, 5000000)
+B_T4ZLO = ("t4zlo", 0, 10 ** 7, 0)                   # a bound of exactly 0 is a bound, not "unset"
+B_T4ZHI = ("t4zhi", -10 ** 7, 0, 0)
+B_GRAPHZ = ("graphzlo", 0, 7500000, 0)
 
 W_QUICK = (1250000, -2500000, 1234567, -1234564, -15000000, 20000000, "nan", "pinf", "ninf", 4, -6, 0)
 W_FULL = W_QUICK + (9999999, 10000001, -10000000, 5000004, 7500000, 3, 9999, 10000, -9996, 2499996, -1234567)
@@ -592,7 +604,7 @@ INVS = ["Idempotent", "RestoreVersion", "RestoreWeights", "RestoreGel", "WriteLo
 
 
 def state_configs(q: bool):
-    allb = B(B_DEF, B_T4, B_GRAPH, B_T4POS, B_OFF, B_EPS, B_POSEPS)
+    allb = B(B_DEF, B_T4, B_GRAPH, B_T4POS, B_OFF, B_EPS, B_POSEPS, B_T4ZLO, B_T4ZHI, B_GRAPHZ)
     cfgs = [
         ("one", dict(BASE, Ids=Def("{0, 1, 2}"), WVals=Def(W(*(W_QUICK if q else W_FULL))), Bounds=Def(allb),
                      Auxs=Def(AUX(ids=("uni",) if q else ("uni", "us"))))),
@@ -736,7 +748,7 @@ def check(run) -> None:
     n = 8 if q else 64
     outs = pmap(real_temp_case, [(base, i) for i in range(n)], procs=1)
     _account(run, "Discovery.real_temporaries_ignored", list(range(n)), outs, "realtmp", lambda i: {"realtmp": i})
-    outs = pmap(auto_writer_case, [(base, i) for i in range(8)], procs=1)
+    outs = pmap(auto_writer_case, [(base, i) for i in range(10)], procs=1)
     _account(run, "SchemaMarker.pr34_writer", list(range(8)), outs, "auto", lambda i: {"auto": i})
     run.exhaustive = True
     phase("discovery")
